@@ -952,7 +952,9 @@ def runListener (case impl : String) : String × String :=
   match (kvGet toks "glob").bind String.toInt?, (kvGet toks "burst").bind String.toInt?,
         (kvGet toks "v4").bind String.toInt?, (kvGet toks "ops").bind fun s => (s.splitOn ",").mapM lopOfStr with
   | some g, some b, some m4, some ops =>
-    let c : Opts := ⟨1, b, m4, 0⟩
+    -- `v6=<mask>` (default: not configured)
+    let m6 := ((kvGet toks "v6").bind String.toInt?).getD 0
+    let c : Opts := ⟨1, b, m4, m6⟩
     let l := ResLimiter.init ⟨g, c⟩
     -- with a global limit (direct calls only in the generated cases) the verdict kinds matter: `listenerRun`
     let (outs, fwd) := if g > 0 then listenerRun ops l [] 0 else listenerRunAtoms ops l
